@@ -94,13 +94,19 @@ class DSL:
             if len(versions) > 1:
                 for type_ in versions:
                     instantiated_P = Primitive(P.primitive, type=type_)
-                    self.list_primitives.append(instantiated_P)
+                    if instantiated_P not in self.list_primitives:
+                        self.list_primitives.append(instantiated_P)
                 self.list_primitives.remove(P)
 
         # Now remove all UNIT as parameters from signatures
         for P in self.list_primitives[:]:
             if any(arg == UNIT for arg in P.type.arguments()):
-                P.type = P.type.without_unit_arguments()
+                instantiated_P = Primitive(
+                    P.primitive, type=P.type.without_unit_arguments()
+                )
+                if instantiated_P not in self.list_primitives:
+                    self.list_primitives.append(instantiated_P)
+                self.list_primitives.remove(P)
 
     def __eq__(self, o: object) -> bool:
         return isinstance(o, DSL) and set(self.list_primitives) == set(
